@@ -1,10 +1,56 @@
 """C04 - server events never outrun the replication they depend on."""
+import os
+import sys
+from common import VERIF
 from simcheck import sim_check
+
+sys.path.insert(0, os.path.join(VERIF, "gen"))
+import scripts as gen_scripts
+
+
+def mixed_tick_scripts(rng, tier):
+    """three or more recipients of one buffered event whose last update ticks differ (some saw this tick's spawn, others did not -
+    visibility): every recipient's copy must carry ITS OWN update tick, whatever order the server serves them in; then the event
+    channel overtakes the update channel"""
+    out = []
+    for i in range(30 if tier == "quick" else 1200):
+        lines = ["cfg policy=white auth=none track=0 nclients=3 timeout=10000", "start", "sframe 0 10"]
+        order = [0, 1, 2]
+        rng.shuffle(order)
+        for c in order:
+            lines.append("connect %d 1200" % c)
+        lines.append("sop spawn 1 1 0=1")
+        for c in range(3):
+            lines.append("sop vis %d 1 1" % c)
+        lines.append("sframe 1 16")
+        for c in range(3):
+            lines += ["deliver %d s2c 0 all" % c, "cframe %d" % c]
+        seq, ent = 0, 2
+        for _ in range(rng.randrange(1, 4)):
+            see = [c for c in range(3) if rng.random() < 0.6]
+            lines.append("sop spawn %d 1 0=%d" % (ent, rng.randrange(50)))
+            for c in see:
+                lines.append("sop vis %d %d 1" % (c, ent))
+            ent += 1
+            for _ in range(rng.randrange(1, 3)):
+                seq += 1
+                lines.append("sop ev %s %s %d" % (rng.choice(["SE0", "ST", "SE0"]), rng.choice(["b", "b", "x0", "x1"]), seq))
+            lines.append("sframe 1 16")
+            for c in range(3):
+                if rng.random() < 0.7:
+                    lines += ["deliver %d s2c 2 all" % c, "deliver %d s2c 6 all" % c, "cframe %d" % c]      # events first
+                if rng.random() < 0.6:
+                    lines += ["deliver %d s2c 0 all" % c, "cframe %d" % c]
+        meta = dict(connected=[0, 1, 2], events=True)
+        sf = len(lines)
+        lines += gen_scripts.settle_lines(meta)
+        out.append(("mixed-ticks-%d" % i, lines, sf))
+    return out
 
 
 def run(tier, seed, replay):
     kws = [dict(events=True, weights=dict(sev=4.0, edeliver=5.0, deliver=2.0)), dict(events=True, nclients=3, auth="custom"), dict(events=True, policy="black"), dict(events=True, weights=dict(sev=3.0, sop=6.0))]
-    return sim_check("C04", tier, seed, kws, n_quick=240, n_thorough=24000, oracle_props={"C04"}, known_ids=("D19",),
+    return sim_check("C04", tier, seed, kws, n_quick=240, n_thorough=24000, oracle_props={"C04"}, known_ids=("D19",), custom_scripts=mixed_tick_scripts,
                      rule_extra=", server events of every kind (ordered, independent, mapped, unreliable, triggers with targets) emitted in arbitrary frames with event channels delayed independently of the update channel",
                      extra_assumptions=["'withheld' is read as 'not delivered': a ready event whose entity cannot be resolved on the client is dropped, not retried (C04_references_resolve_or_dropped)"],
                      model_name="RV.Repl.Sys + RV.Events.Remote")
